@@ -1,6 +1,8 @@
 #!/bin/bash
-# tools/confirm_mutant.sh <Cxx> [suffix]: confirm a sub-agent's change in its scratch worktree and store it under seeded/
-id=$1; sfx=${2:-}; wt=/tmp/wt_$id; name=$id$sfx
+# tools/confirm_mutant.sh <Cxx> [worktree-prefix]: confirm a sub-agent's change in its scratch worktree
+# (/tmp/<prefix>_<Cxx>, default prefix wt) and store it under seeded/<Cxx>[-2]/
+id=$1; pre=${2:-wt}; wt=/tmp/${pre}_$id; name=$id
+if [ "$pre" != "wt" ]; then name="${id}-${pre:2}"; fi
 cd $wt || exit 1
 git diff > /tmp/$name.patch
 [ -s /tmp/$name.patch ] || { echo "no diff"; exit 1; }
@@ -11,4 +13,4 @@ echo "== demo on the original"; PYTHONPATH=$wt/src timeout 300 /venv/bin/python 
 git apply /tmp/$name.patch
 mkdir -p /verif/seeded/$name
 cp /tmp/$name.patch /verif/seeded/$name/patch.diff; cp DEMO.py /verif/seeded/$name/DEMO.py; cp NOTES.md /verif/seeded/$name/NOTES.md 2>/dev/null
-echo "confirmed: demo_changed_rc=$rc1 demo_orig_rc=$rc0"
+echo "confirmed $name: suite=$(PYTHONPATH=$wt/src /venv/bin/python -m pytest -q -p no:cacheprovider -q 2>&1 | tail -1 | tr -d '\n' | tail -c 40) demo_changed_rc=$rc1 demo_orig_rc=$rc0"
